@@ -22,7 +22,9 @@
  *     execzone: event::ExecutedCommand: zone of the endpoint stored in executions[uuid] (`-`: no such execution)
  *     cmdep  : 1 = the checkable's command_endpoint is the endpoint the sender's identity names
  *     exists : 0 = the parameters name objects that do not exist (malformed stream)
- *     var    : 0 host / 1 service of that host (and further per-method parameter variants)
+ *     var    : 0 host / 1 service `s` of that host / 2 service `s<objzone>` of the zone-less host hU (the service's own
+ *              zone differs from its host's); event::SetRemovalInfo: bit 0 host/service, bit 1 comment/downtime;
+ *              event::ExecuteCommand: 1 = `endpoint` parameter names the receiver; pki::UpdateCertificate: 1 = own-certificate branch
  *   observation: bits objects files relayed executed; replied = messages queued back to the sender;
  *     fromzone / hasendpoint: what a probe ApiFunction sees as origin->FromZone / FromClient->GetEndpoint()
  *     for a message with the same connection and originZone field (`-` = null).
@@ -50,6 +52,7 @@
 #include "remote/configobjectutility.hpp"
 #include "icinga/notification.hpp"
 #include "icinga/comment.hpp"
+#include "icinga/downtime.hpp"
 #include "icinga/user.hpp"
 #include "icinga/checkcommand.hpp"
 #include "icinga/clusterevents.hpp"
@@ -219,18 +222,25 @@ static void GenCases(const Forest& f, Rng& rng, std::vector<std::string>& out, i
 
 	/* state / event updates guarded by CanAccessObject */
 	g.skipGlobalCheckable = true;
+	auto varFor = [&](const std::string& m, const std::string& oz, int k) {
+		if (m == "event::SetRemovalInfo") return k % 4;
+		if (m == "event::SetNextNotification") return k % 2;
+		int v = k % 3;
+		if (v == 2 && (oz == "-" || f.Global(atoi(oz.c_str())))) v = 1;
+		return v;
+	};
 	for (const char *m : kAccess)
 		for (auto& p : so)
 			for (auto& oz : objz) {
 				if (!pick()) continue;
-				EmitM(g, m, p.first, p.second, oz, "-", 0, flip & 1, (flip >> 1) & 1, 1, (flip >> 2) & 1);
+				EmitM(g, m, p.first, p.second, oz, "-", 0, flip & 1, (flip >> 1) & 1, 1, varFor(m, oz, flip >> 2));
 				flip++;
 			}
 	for (auto& p : so)
 		for (auto& oz : objz)
 			for (int cmdep = 0; cmdep < 2; cmdep++) {
 				if (!pick()) continue;
-				EmitM(g, "event::CheckResult", p.first, p.second, oz, "-", cmdep, flip & 1, (flip >> 1) & 1, 1, (flip >> 2) & 1);
+				EmitM(g, "event::CheckResult", p.first, p.second, oz, "-", cmdep, flip & 1, (flip >> 1) & 1, 1, varFor("event::CheckResult", oz, flip >> 2));
 				flip++;
 			}
 	g.skipGlobalCheckable = false;
@@ -528,6 +538,17 @@ static void BuildNode(const std::string& work, const std::string& id)
 			nt->SetZoneName(zn);
 			Bring(nt);
 		}
+		for (const char *suffix : { "!d", "!s!d" }) {
+			Downtime::Ptr d = new Downtime();
+			SetF(d, "host_name", hn);
+			if (suffix[1] == 's') SetF(d, "service_name", "s");
+			d->SetFixed(true);
+			d->SetStartTime(4e9); d->SetEndTime(4e9 + 3600); d->SetEntryTime(1);
+			d->SetAuthor("v"); d->SetComment("v");
+			d->SetName(hn + suffix);
+			d->SetZoneName(zn);
+			Bring(d);
+		}
 		for (const char *suffix : { "!c", "!s!c" }) {
 			Comment::Ptr c = new Comment();
 			SetF(c, "host_name", hn);
@@ -538,6 +559,18 @@ static void BuildNode(const std::string& work, const std::string& id)
 			c->SetZoneName(zn);
 			Bring(c);
 		}
+	}
+
+	/* services whose own zone differs from their (zone-less) host's */
+	for (auto& oz : ozs) {
+		if (oz == "-" || l_F.Global(atoi(oz.c_str()))) continue;
+		Service::Ptr s = new Service();
+		SetF(s, "host_name", String("hU"));
+		s->SetShortName(String("s" + oz), true);
+		s->SetName(String("hU!s" + oz));
+		SetF(s, "check_command", "vcmd");
+		s->SetZoneName(String(ZoneName(atoi(oz.c_str()))));
+		Bring(s);
 	}
 
 	Checkable::OnNotificationsRequested.connect([](const Checkable::Ptr&, NotificationType, const CheckResult::Ptr&,
@@ -676,16 +709,19 @@ static void CreateRuntimeUser()
 static Dictionary::Ptr Prepare(const Case& c)
 {
 	const std::string& m = c.method;
-	String hn = c.exists ? String(HostName(c.objzone)) : String("nohost");
-	bool svc = c.var == 1 && m != "event::ExecuteCommand";
+	bool cross = c.var == 2 && c.exists && m != "event::SetRemovalInfo" && TargetsCheckable(m) && c.objzone != "-";
+	String hn = !c.exists ? String("nohost") : cross ? String("hU") : String(HostName(c.objzone));
+	bool svc = (cross || (c.var & 1)) && m != "event::ExecuteCommand" && m != "pki::UpdateCertificate";
+	String sn = cross ? String("s" + c.objzone) : String("s");
+	bool downtime = m == "event::SetRemovalInfo" && (c.var & 2);
 	Host::Ptr host = Host::GetByName(hn);
 	Checkable::Ptr chk = host;
-	if (host && svc) chk = host->GetServiceByShortName("s");
+	if (host && svc) chk = host->GetServiceByShortName(sn);
 	String nname = hn + (svc ? "!s!n" : "!n");
-	String cname = hn + (svc ? "!s!c" : "!c");
+	String cname = hn + (svc ? "!s" : "") + (downtime ? "!d" : "!c");
 	Notification::Ptr nt = Notification::GetByName(nname);
 	Dictionary::Ptr p = new Dictionary();
-	auto hostParams = [&]() { p->Set("host", hn); if (svc) p->Set("service", "s"); };
+	auto hostParams = [&]() { p->Set("host", hn); if (svc) p->Set("service", sn); };
 	double v = l_Now + 1000 + (double)l_Tick;
 
 	l_Listener->SetAcceptConfig(c.acfg != 0);
@@ -755,7 +791,7 @@ static Dictionary::Ptr Prepare(const Case& c)
 		p->Set("executions", new Dictionary({ { String("x" + std::to_string(l_Tick)), Dictionary::Ptr(new Dictionary({ { "pending", true } })) } }));
 		if (chk) chk->SetExecutions(new Dictionary());
 	} else if (m == "event::SetRemovalInfo") {
-		p->Set("object_type", "Comment"); p->Set("object_name", cname);
+		p->Set("object_type", downtime ? "Downtime" : "Comment"); p->Set("object_name", cname);
 		p->Set("removed_by", String("r" + std::to_string(l_Tick))); p->Set("remove_time", v);
 	} else if (m == "event::Heartbeat") {
 		p->Set("timeout", 120);
